@@ -122,7 +122,7 @@ pub(crate) fn render_modular<S: Sample>(
                         tracker,
                         pool,
                     );
-                    if !allow_partial && r.is_err() {
+                    if matches!(&r, Err(e) if !allow_partial || e.out_of_memory()) {
                         *result.write().unwrap() = r.map_err(From::from);
                     }
                 },
